@@ -365,7 +365,7 @@ KNOWN_CLASSES = {"findall_node_order": findall_node_order, "findall_complement_p
                  "nested_all_in_findall": nested_all_in_findall}
 
 SUBCHECKS = [
-    SubCheck("worlds", check, strategy=_strategy, budget={"quick": 800, "thorough": 11000},
+    SubCheck("worlds", check, strategy=_strategy, budget={"quick": 2400, "thorough": 11000},
              timeout={"quick": 15, "thorough": 60}, render=render),
     SubCheck("nested", check, strategy=_strategy_nested, budget={"quick": 0, "thorough": 4000},
              timeout={"quick": 15, "thorough": 30}, render=render),
